@@ -101,6 +101,8 @@ type Task struct {
 	pv    int // value id, -1 = returns normally
 	pval  any
 	once  sync.Once
+	kind  string        // dynamic type of the value handed to PushTask (kinds.go)
+	wrap  tasklane.Task // the value pushed instead of the *Task itself, nil = the pointer
 }
 
 // NewTask: gated tasks block in Start() until Release(); pv >= 0 makes Start() panic with value id pv.
@@ -270,6 +272,21 @@ func (r *Run) MaxConcurrency() int {
 	return r.maxCur
 }
 
+// unstartedKinds lists the dynamic types of accepted tasks that have not been started.
+func (r *Run) unstartedKinds() string {
+	r.mu.Lock()
+	defer r.mu.Unlock()
+	seen := map[string]bool{}
+	out := ""
+	for _, c := range r.calls {
+		if c.Res == "ok" && r.nS[c.T.ID] == 0 && !seen[c.T.Kind()] {
+			seen[c.T.Kind()] = true
+			out += c.T.Kind() + ","
+		}
+	}
+	return out
+}
+
 func (r *Run) ReleaseAll() {
 	r.mu.Lock()
 	ts := append([]*Task(nil), r.tasks...)
@@ -354,7 +371,7 @@ func (r *Run) doPush(c *PushCall) {
 				err = fmt.Errorf("panic:%v", x)
 			}
 		}()
-		err = r.L.PushTask(c.T, c.Lane)
+		err = r.L.PushTask(c.T.value(), c.Lane)
 	}()
 	res := ""
 	switch {
